@@ -4,7 +4,7 @@ CHECK = dict(
     src=['harness/c03_request_order.cpp'], variants=[P, S16], level='model_checking', extra_flags=['-fno-access-control'],
     technique='explicit enumeration of all request histories up to a depth bound on the real archive scopes (history replayed on a fresh archive per execution), canonical cursor-state hashing, reference-map oracle',
     level_text='All request histories of length <= L (quick 3, thorough 4) over {Get(key) full / array partly read / nested object partly read, Get(absent), VisitKeys} for every corpus object (<= 3 keys quick, '
-               '<= 4 thorough; string and, for MsgPack, uint/int/float/double/timestamp keys), embedded in an array and in an object with a trailing sentinel, 4 archives, memory and stream, every padding 0..17 '
+               '<= 4 thorough; string keys - two documents with key names that are prefixes of each other - and, for MsgPack, uint/int/float/double/timestamp keys; keys passed as std::string straight into Serialize() and as C strings through KeyValue), embedded in an array and in an object with a trailing sentinel, 4 archives, memory and stream, every padding 0..17 '
                'with a 16-byte stream cache (hook) and paddings around the production 256-byte boundary. states = distinct canonical cursor states (scope index, pending key, reader position, cache window, '
                'stream position, iostate); aux = states reached by histories shorter than L: states == aux means no new cursor state appears at the last depth.',
     level_note='Trusted: reference documents from independent emitters (ref MsgPack encoder, own JSON/XML/CSV emitters), models/num_model.hpp. Each request is judged independently against the source map. '
